@@ -124,6 +124,16 @@ def change_detection(ctx, rule="R11.4"):
         later_plain = [norm_stmt(n)[:60] for n in eq_stores[1:] if not (isinstance(n, ast.AugAssign) and isinstance(n.op, ast.BitAnd))
                        and not (isinstance(n, ast.Assign) and isinstance(n.value, ast.BoolOp) and isinstance(n.value.op, ast.And) and any(isinstance(v, ast.Name) and v.id == "equal" for v in n.value.values))]
         ctx.check(not later_plain, rule, "covmodel/tools.py::compare", "every comparison is AND-ed into the verdict (a plain assignment would discard the earlier ones)%s" % ("" if not later_plain else ": " + "; ".join(later_plain)), "verdict-accumulates")
+        # ... and unconditionally: a comparison that runs only for some models (e.g. "only if this one is anisotropic") lets a change from the
+        # other kind of model go unnoticed; the only admissible guards are the class test and the loop over the optional arguments
+        cond = []
+        for n_ in eq_stores:
+            for anc in ast.walk(cmp_fn):
+                if isinstance(anc, ast.If) and any(x is n_ for b_ in (anc.body, anc.orelse) for y in b_ for x in ast.walk(y)):
+                    t_ = ast.unparse(anc.test)
+                    if any(isinstance(a_, ast.Attribute) and isinstance(a_.value, ast.Name) and a_.value.id in ("this", "that") and a_.attr not in ("__class__", "name") for a_ in ast.walk(anc.test)):
+                        cond.append("%s under `if %s`" % (norm_stmt(n_)[:50], t_[:40]))
+        ctx.check(not cond, rule, "covmodel/tools.py::compare", "no comparison is guarded by a property of one of the two models%s" % ("" if not cond else ": " + "; ".join(cond[:2])), "unconditional")
     cm = prog.cls("covmodel/base.py", "CovModel")
     tools = prog.mod("covmodel/tools.py")
     extra = {n: (tools, tools.functions[n]) for n in ("set_dim", "set_arg_bounds", "check_arg_bounds", "set_opt_args") if n in tools.functions}
@@ -163,6 +173,30 @@ def change_detection(ctx, rule="R11.4"):
         if nm not in read_props:
             ctx.note(rule, "compare() does not look at `%s` (never read by a generator; note only)" % nm)
     ctx.floor(rule, "CovModel parameter setters analysed", len(written), 8)
+
+
+SAMPLED = ("_z_1", "_z_2", "_cov_sample")
+
+
+def single_sampler(ctx, rule="R11.12"):
+    """The random amplitudes and wave vectors of a generator come from ONE place, `reset_seed` (which draws them from a freshly seeded
+    stream in a fixed order); no other method writes them - taking over part of an earlier sample (a prefix, a permutation) is not the
+    sample a fresh generator with the new settings would draw (the MCMC radii of a shorter request are not a prefix of a longer one)."""
+    prog = ctx.prog
+    n = 0
+    for cname in ("RandMeth", "IncomprRandMeth", "Fourier"):
+        ci = prog.cls(GEN, cname)
+        for kind in ("methods", "getters", "setters"):
+            for name, fn in sorted(getattr(ci, kind).items()):
+                ws = sorted({t.attr for st in ast.walk(fn) if isinstance(st, (ast.Assign, ast.AugAssign)) for t in (st.targets if isinstance(st, ast.Assign) else [st.target])
+                             for t in ([t] if not isinstance(t, ast.Tuple) else t.elts) if isinstance(t, ast.Attribute) and isinstance(t.value, ast.Name) and t.value.id == "self" and t.attr in SAMPLED
+                             and not (isinstance(st, ast.Assign) and isinstance(st.value, ast.Constant) and st.value.value is None)})
+                if not ws:
+                    continue
+                n += 1
+                ctx.check(name == "reset_seed" and kind == "methods", rule, "%s::%s.%s" % (GEN, cname, name if kind == "methods" else name + "@set"),
+                          "writes the sampled fields %s" % ws, "sampler:%s" % ",".join(ws))
+    ctx.floor(rule, "methods writing sampled fields", n, 2)
 
 
 def requested_positions(ctx, rule="R11.9"):
@@ -392,11 +426,13 @@ def update_before_generate(ctx, rule="R11.7"):
 
 
 def run(ctx):
+    single_sampler(ctx)
     from . import C15_kernels as _K
 
     _K.accumulator_reset(ctx, rule="R11.11")  # mode-summation kernels: phase reset per mode, every point and mode visited (shared with C15)
     _K.accumulator_complete(ctx, rule="R11.11")
     _K.build_independent(ctx, rule="R11.11")
+    _K.kernel_shape(ctx, rule="R11.11")
     _K.full_extent(ctx, rule="R11.11")
     _K.zero_init(ctx, rule="R11.11")
     from . import C15_bounds
